@@ -364,20 +364,19 @@ def futOf : FutRes → Fut
 def arm (w : Script) (waits : List WaitAns) (sends : List SendAns) : Script :=
   { w with waits := w.waits ++ waits, sends := w.sends ++ sends, calls := [] }
 
+/-- the elements a step pushed onto a newest-first ghost list -/
+def pushed {α : Type} (before after : List α) : List α := after.take (after.length - before.length)
+
 /-- observations of one driver step: raw sends, handler calls, what left `Step`, futures resolved -/
 def stepObs (a : Async) (o : Out Unit) (p : PSt Script) : List Obs :=
   callsObs p.w.calls
-  ++ (match p.a.delivered with
-      | bs :: _ => if p.a.delivered.length = a.delivered.length + 1 then [Obs.rx bs.length] else []
-      | [] => [])
+  ++ (pushed a.delivered p.a.delivered).map (fun bs => Obs.rx bs.length)
   ++ (if p.a.disconnects = a.disconnects + 1 then [Obs.disc false] else [])
   ++ (match o with
       | .ok () => []
       | .exn _ => [Obs.stepThrew "logic_error"]
       | .abort m => [Obs.abort .crash m])
-  ++ (match p.a.futures with
-      | f :: _ => if p.a.futures.length = a.futures.length + 1 then [Obs.fut a.futures.length (futOf f)] else []
-      | [] => [])
+  ++ (pushed a.futures p.a.futures).map (fun f => Obs.fut a.futures.length (futOf f))
 
 /-- the `recv` answers left after the peer's kill -/
 def killRecvs (recvs : List RecvAns) : Option (Nat × Nat) → List RecvAns
@@ -413,10 +412,7 @@ def sysStep (m : Sys) : Op → Sys × List Obs
   | .step rev sends =>
     if ¬ m.async ∨ m.destroyed then (m, []) else
     let (o, p) := pTask Script.world m.rsz { m.x with w := arm m.x.w [] sends } rev
-    let newGot := match p.a.delivered with
-      | bs :: _ => if p.a.delivered.length = m.x.a.delivered.length + 1 then bs else []
-      | [] => []
-    ({ m with x := p, got := m.got ++ newGot }, stepObs m.x.a o p)
+    ({ m with x := p, got := m.got ++ (pushed m.x.a.delivered p.a.delivered).flatten }, stepObs m.x.a o p)
   | .pre xsent => ({ m with xsentPre := firstOf m.xsentPre xsent }, [.pre xsent])
   | .kill kind pread reset sends =>
     if m.killed.isSome then (m, []) else
@@ -1655,5 +1651,445 @@ theorem step_recv (ord) (m : Sys) (sp : SpecSt) (T : Int) (waits : List WaitAns)
           · exact h1
           · exact h2
           · exact h3
+
+
+/-! ### the asynchronous socket: one driver step -/
+
+/-- facts about the kernel state after the step's system calls, relative to the state before -/
+structure WFrame (m : Sys) (w' : Script) : Prop where
+  dead : w'.dead = m.x.w.dead
+  waits : m.killed.isSome = true → w'.waits = []
+  sane : saneSends w'.sends = true
+
+/-- a step that did nothing for X (not registered any more, or nothing reported) -/
+theorem astep_idle_ok (ord) (m : Sys) (sp : SpecSt) (rev : REvents) (sends : List SendAns) (rest : List Op) (w' : Script)
+    (hR : Rel m sp) (hI : MInv m) (hL : Live ord m (.step rev sends :: rest)) (ha : m.async = true)
+    (hF : WFrame m w') (hr : w'.recvs = m.x.w.recvs)
+    (hidle : m.killed.isSome = true → m.x.a.registered = false) :
+    Rel { m with x := { m.x with w := w' }, got := m.got ++ [] } sp ∧
+    MInv { m with x := { m.x with w := w' }, got := m.got ++ [] } ∧
+    Live ord { m with x := { m.x with w := w' }, got := m.got ++ [] } rest := by
+  refine ⟨?_, ?_, ?_⟩
+  · exact ⟨hR.ep, hR.spay, hR.kill, hR.pre, hR.ord, hR.threw, hR.destroyed, hR.enqs, hR.live, hR.futs⟩
+  · refine ⟨hI.psent, ?_, ?_, ?_, hF.waits, hF.sane, hI.lossyK, hI.kreal, hI.adisc, hI.areg, hI.pollq, ?_, ?_, hI.threwK⟩
+    · show recvsOk m.rsz m.lossy w'.recvs
+      rw [hr]; exact hI.recvs
+    · show ∃ lost, m.ppay.take m.psent = (m.got ++ []) ++ dataOf w'.recvs ++ lost ∧ _
+      rw [hr, List.append_nil]; exact hI.stream
+    · show w'.dead = m.killed.isSome
+      rw [hF.dead]; exact hI.dead
+    · intro h
+      show m.killed.isSome = true ∧ w'.recvs = []
+      rw [hr]; exact hI.unreg h
+    · intro h
+      obtain ⟨h1, h2, h3⟩ := hI.rthrew h
+      exact ⟨h1, by show w'.recvs = []; rw [hr]; exact h2, h3⟩
+  · refine ⟨hL.ordEq, ?_, ?_, ?_⟩
+    · intro _ hk hreg _
+      have := hidle hk
+      have hreg' : m.x.a.registered = true := hreg
+      rw [this] at hreg'; cases hreg'
+    · intro a; have : m.async = false := a; rw [ha] at this; cases this
+    · intro a; have : m.async = false := a; rw [ha] at this; cases this
+
+/-- a step that handed the next segment to the receive handler -/
+theorem astep_got_ok (ord) (m : Sys) (sp : SpecSt) (rev : REvents) (sends : List SendAns) (rest : List Op) (w' : Script)
+    (bs : Bytes)
+    (hR : Rel m sp) (hI : MInv m) (hL : Live ord m (.step rev sends :: rest)) (ha : m.async = true)
+    (hF : WFrame m w') (hr : m.x.w.recvs = .data bs :: w'.recvs) :
+    Rel { m with x := { a := { m.x.a with delivered := bs :: m.x.a.delivered }, w := w' }, got := m.got ++ bs } sp ∧
+    MInv { m with x := { a := { m.x.a with delivered := bs :: m.x.a.delivered }, w := w' }, got := m.got ++ bs } ∧
+    Live ord { m with x := { a := { m.x.a with delivered := bs :: m.x.a.delivered }, w := w' }, got := m.got ++ bs } rest := by
+  refine ⟨?_, ?_, ?_⟩
+  · exact ⟨hR.ep, hR.spay, hR.kill, hR.pre, hR.ord, hR.threw, hR.destroyed, hR.enqs, hR.live, hR.futs⟩
+  · obtain ⟨lost, hs, hl⟩ := hI.stream
+    have hrec := hI.recvs
+    rw [hr] at hrec
+    refine ⟨hI.psent, hrec.2.2, ⟨lost, ?_, hl⟩, ?_, hF.waits, hF.sane, hI.lossyK, hI.kreal, hI.adisc, hI.areg, hI.pollq, ?_, ?_, hI.threwK⟩
+    · show m.ppay.take m.psent = m.got ++ bs ++ dataOf w'.recvs ++ lost
+      rw [hs, hr]; simp [dataOf]
+    · show w'.dead = m.killed.isSome
+      rw [hF.dead]; exact hI.dead
+    · intro h
+      have := (hI.unreg h).2
+      rw [hr] at this; cases this
+    · intro h
+      have := (hI.rthrew h).2.1
+      rw [hr] at this; cases this
+  · refine ⟨hL.ordEq, ?_, ?_, ?_⟩
+    · intro a hk hreg ho
+      have := hL.steps a hk hreg ho
+      rw [hr] at this
+      simp only [liveSteps, List.length_cons] at this
+      exact ⟨this.1, by show liveSteps rest > w'.recvs.length; omega⟩
+    · intro a; have : m.async = false := a; rw [ha] at this; cases this
+    · intro a; have : m.async = false := a; rw [ha] at this; cases this
+
+/-- a step in which the driver's receive saw the end of the stream (or an error): disconnect handler -/
+theorem astep_disc_ok (ord) (m : Sys) (sp : SpecSt) (ep : EpSt) (rev : REvents) (sends : List SendAns) (rest : List Op) (w' : Script)
+    (hR : Rel m sp) (hI : MInv m) (hL : Live ord m (.step rev sends :: rest)) (ha : m.async = true)
+    (hep : sp.ep = some ep ∧ ep.async = m.async ∧ ep.tls = false ∧ ep.callT = none ∧ ep.discSeen = m.x.a.disconnects)
+    (hF : WFrame m w') (hr : w'.recvs = []) (hdata : dataOf m.x.w.recvs = [])
+    (hk : m.killed.isSome = true) (hreg : m.x.a.registered = true) :
+    Rel { m with x := pDisconnect { m.x with w := w' }, got := m.got ++ [] }
+        { sp with ep := some { ep with discSeen := ep.discSeen + 1 } } ∧
+    MInv { m with x := pDisconnect { m.x with w := w' }, got := m.got ++ [] } ∧
+    Live ord { m with x := pDisconnect { m.x with w := w' }, got := m.got ++ [] } rest := by
+  obtain ⟨h0, he1, he2, he3, he4⟩ := hep
+  have hd0 : m.x.a.disconnects = 0 := by
+    have h1 := hI.adisc
+    have h2 : m.x.a.disconnects ≠ 1 := fun h => by
+      have := hI.areg.mp h; rw [hreg] at this; cases this
+    omega
+  refine ⟨?_, ?_, ?_⟩
+  · refine ⟨⟨_, rfl, he1, he2, he3, ?_⟩, hR.spay, hR.kill, hR.pre, hR.ord, hR.threw, hR.destroyed, hR.enqs, ?_, hR.futs⟩
+    · show ep.discSeen + 1 = m.x.a.disconnects + 1
+      rw [he4]
+    · intro h; cases h
+  · obtain ⟨lost, hs, hl⟩ := hI.stream
+    refine ⟨hI.psent, ?_, ⟨lost, ?_, hl⟩, ?_, hF.waits, hF.sane, hI.lossyK, hI.kreal, ?_, ?_, hI.pollq, ?_, ?_, hI.threwK⟩
+    · show recvsOk m.rsz m.lossy w'.recvs
+      rw [hr]; trivial
+    · show m.ppay.take m.psent = (m.got ++ []) ++ dataOf w'.recvs ++ lost
+      rw [hr, hs, hdata]; simp [dataOf]
+    · show w'.dead = m.killed.isSome
+      rw [hF.dead]; exact hI.dead
+    · show m.x.a.disconnects + 1 ≤ 1
+      omega
+    · show m.x.a.disconnects + 1 = 1 ↔ false = false
+      simp [hd0]
+    · intro _; exact ⟨hk, hr⟩
+    · intro h
+      obtain ⟨h1, _, h3⟩ := hI.rthrew h
+      exact ⟨h1, hr, h3⟩
+  · refine ⟨hL.ordEq, ?_, ?_, ?_⟩
+    · intro _ _ h; cases h
+    · intro a; have : m.async = false := a; rw [ha] at this; cases this
+    · intro a; have : m.async = false := a; rw [ha] at this; cases this
+
+
+/-- a step in which the driver's send resolved the promise of the buffer at the head of the queue
+(with a value: everything accepted; with an exception: the send failed) -/
+theorem astep_sent_ok (ord) (m : Sys) (sp : SpecSt) (rev : REvents) (sends : List SendAns) (rest : List Op) (w' : Script)
+    (buf : Bytes) (rest' : List Bytes) (f : FutRes)
+    (hR : Rel m sp) (hI : MInv m) (hL : Live ord m (.step rev sends :: rest)) (ha : m.async = true)
+    (hF : WFrame m w') (hr : w'.recvs = m.x.w.recvs) (hq : m.x.a.sendQ = buf :: rest')
+    (hk : m.killed = none) (hd : m.destroyed = false) :
+    Rel { m with x := { a := { m.x.a with sendQ := rest', futures := f :: m.x.a.futures,
+                                          pollOut := if rest'.isEmpty then false else m.x.a.pollOut }, w := w' }, got := m.got ++ [] }
+        { sp with futs := sp.futs + 1 } ∧
+    MInv { m with x := { a := { m.x.a with sendQ := rest', futures := f :: m.x.a.futures,
+                                           pollOut := if rest'.isEmpty then false else m.x.a.pollOut }, w := w' }, got := m.got ++ [] } ∧
+    Live ord { m with x := { a := { m.x.a with sendQ := rest', futures := f :: m.x.a.futures,
+                                               pollOut := if rest'.isEmpty then false else m.x.a.pollOut }, w := w' }, got := m.got ++ [] } rest := by
+  refine ⟨?_, ?_, ?_⟩
+  · refine ⟨hR.ep, hR.spay, hR.kill, hR.pre, hR.ord, hR.threw, hR.destroyed, ?_, hR.live, ?_⟩
+    · show sp.enqs.length = (f :: m.x.a.futures).length + rest'.length
+      have := hR.enqs
+      rw [hq] at this
+      simp only [List.length_cons] at this ⊢
+      omega
+    · show sp.futs + 1 = (f :: m.x.a.futures).length + (if m.destroyed = true then rest'.length else 0)
+      have := hR.futs
+      rw [hd] at this ⊢
+      simp only [Bool.false_eq_true, if_false, Nat.add_zero, List.length_cons] at this ⊢
+      omega
+  · refine ⟨hI.psent, ?_, ?_, ?_, hF.waits, hF.sane, hI.lossyK, hI.kreal, hI.adisc, hI.areg, ?_, ?_, ?_, hI.threwK⟩
+    · show recvsOk m.rsz m.lossy w'.recvs
+      rw [hr]; exact hI.recvs
+    · show ∃ lost, m.ppay.take m.psent = (m.got ++ []) ++ dataOf w'.recvs ++ lost ∧ _
+      rw [hr, List.append_nil]; exact hI.stream
+    · show w'.dead = m.killed.isSome
+      rw [hF.dead]; exact hI.dead
+    · intro h
+      have h' : (if rest'.isEmpty then false else m.x.a.pollOut) = true := h
+      show rest' ≠ []
+      intro he
+      rw [he] at h'
+      simp at h'
+    · intro h
+      show m.killed.isSome = true ∧ w'.recvs = []
+      rw [hr]; exact hI.unreg h
+    · intro h
+      obtain ⟨h1, h2, h3⟩ := hI.rthrew h
+      exact ⟨h1, by show w'.recvs = []; rw [hr]; exact h2, h3⟩
+  · refine ⟨hL.ordEq, ?_, ?_, ?_⟩
+    · intro _ h; have : m.killed.isSome = true := h; rw [hk] at this; cases this
+    · intro a; have : m.async = false := a; rw [ha] at this; cases this
+    · intro a; have : m.async = false := a; rw [ha] at this; cases this
+
+/-- a step in which the driver's send was accepted only partly: the rest stays queued -/
+theorem astep_partial_ok (ord) (m : Sys) (sp : SpecSt) (rev : REvents) (sends : List SendAns) (rest : List Op) (w' : Script)
+    (buf : Bytes) (rest' : List Bytes) (n : Nat)
+    (hR : Rel m sp) (hI : MInv m) (hL : Live ord m (.step rev sends :: rest)) (ha : m.async = true)
+    (hF : WFrame m w') (hr : w'.recvs = m.x.w.recvs) (hq : m.x.a.sendQ = buf :: rest')
+    (hk : m.killed = none) :
+    Rel { m with x := { a := { m.x.a with sendQ := buf.drop n :: rest' }, w := w' }, got := m.got ++ [] } sp ∧
+    MInv { m with x := { a := { m.x.a with sendQ := buf.drop n :: rest' }, w := w' }, got := m.got ++ [] } ∧
+    Live ord { m with x := { a := { m.x.a with sendQ := buf.drop n :: rest' }, w := w' }, got := m.got ++ [] } rest := by
+  refine ⟨?_, ?_, ?_⟩
+  · refine ⟨hR.ep, hR.spay, hR.kill, hR.pre, hR.ord, hR.threw, hR.destroyed, ?_, hR.live, ?_⟩
+    · show sp.enqs.length = m.x.a.futures.length + (buf.drop n :: rest').length
+      have := hR.enqs
+      rw [hq] at this
+      simpa using this
+    · show sp.futs = m.x.a.futures.length + (if m.destroyed = true then (buf.drop n :: rest').length else 0)
+      have := hR.futs
+      rw [hq] at this
+      simpa using this
+  · refine ⟨hI.psent, ?_, ?_, ?_, hF.waits, hF.sane, hI.lossyK, hI.kreal, hI.adisc, hI.areg, ?_, ?_, ?_, hI.threwK⟩
+    · show recvsOk m.rsz m.lossy w'.recvs
+      rw [hr]; exact hI.recvs
+    · show ∃ lost, m.ppay.take m.psent = (m.got ++ []) ++ dataOf w'.recvs ++ lost ∧ _
+      rw [hr, List.append_nil]; exact hI.stream
+    · show w'.dead = m.killed.isSome
+      rw [hF.dead]; exact hI.dead
+    · intro _
+      show buf.drop n :: rest' ≠ []
+      simp
+    · intro h
+      show m.killed.isSome = true ∧ w'.recvs = []
+      rw [hr]; exact hI.unreg h
+    · intro h
+      obtain ⟨h1, h2, h3⟩ := hI.rthrew h
+      exact ⟨h1, by show w'.recvs = []; rw [hr]; exact h2, h3⟩
+  · refine ⟨hL.ordEq, ?_, ?_, ?_⟩
+    · intro _ h; have : m.killed.isSome = true := h; rw [hk] at this; cases this
+    · intro a; have : m.async = false := a; rw [ha] at this; cases this
+    · intro a; have : m.async = false := a; rw [ha] at this; cases this
+
+
+theorem enqs_not_late (l : List Bool) (i : Nat) (h : ∀ b ∈ l, b = false) : (l[i]? == some true) = false := by
+  cases hg : l[i]? with
+  | none => rfl
+  | some b =>
+    have := h b (List.mem_of_getElem? hg)
+    subst this
+    rfl
+
+theorem step_step (ord) (m : Sys) (sp : SpecSt) (rev : REvents) (sends : List SendAns)
+    (rest : List Op) (hR : Rel m sp) (hI : MInv m) (hL : Live ord m (.step rev sends :: rest))
+    (hok : opOk ord m (.step rev sends) rest = true) :
+    StepOk ord m sp (.step rev sends) rest := by
+  by_cases hc : ¬ m.async = true ∨ m.destroyed = true
+  · refine ⟨sp, ?_, ?_, ?_, ?_⟩ <;> simp only [sysStep, if_pos hc]
+    · intro tail; rfl
+    · exact hR
+    · exact hI
+    · refine ⟨hL.ordEq, ?_, hL.recvs, hL.sends⟩
+      intro a b c d
+      have := (hL.steps a b c d).1
+      rcases hc with hc | hc
+      · exact absurd a hc
+      · rw [hc] at this; cases this
+  · have ha : m.async = true := by
+      cases h : m.async
+      · exact absurd (Or.inl (by simp [h])) hc
+      · rfl
+    have hd : m.destroyed = false := by
+      cases h : m.destroyed
+      · rfl
+      · exact absurd (Or.inr h) hc
+    simp only [opOk, ha, hd, Bool.not_true, Bool.false_or, Bool.and_eq_true] at hok
+    obtain ⟨hsane, hcond⟩ := hok
+    have hF0 : WFrame m (arm m.x.w [] sends) :=
+      ⟨rfl, (fun hk => by show m.x.w.waits ++ [] = []; simp [hI.kwaits hk]), saneSends_append _ _ hI.sane hsane⟩
+    obtain ⟨ep, hep⟩ := hR.ep
+    unfold StepOk
+    by_cases hreg' : m.x.a.registered = false
+    · -- not registered any more: the driver does not look at the socket
+      have hval : pTask Script.world m.rsz ⟨m.x.a, arm m.x.w [] sends⟩ rev = (.ok (), ⟨m.x.a, arm m.x.w [] sends⟩) := by
+        simp [pTask, hreg']
+      have hstep : sysStep m (.step rev sends) = ({ m with x := { m.x with w := arm m.x.w [] sends }, got := m.got ++ [] }, []) := by
+        simp only [sysStep, if_neg hc]
+        rw [hval]
+        simp [stepObs, pushed, callsObs, arm]
+      rw [hstep]
+      obtain ⟨h1, h2, h3⟩ := astep_idle_ok ord m sp rev sends rest (arm m.x.w [] sends) hR hI hL ha hF0 rfl (fun _ => hreg')
+      exact ⟨sp, fun tail => rfl, h1, h2, h3⟩
+    · have hreg : m.x.a.registered = true := by cases h : m.x.a.registered <;> simp_all
+      by_cases hrd : rev.rd = true
+      · -- POLLIN: DriverReceive
+        have hval0 : pTask Script.world m.rsz ⟨m.x.a, arm m.x.w [] sends⟩ rev
+            = pReadable Script.world m.rsz ⟨m.x.a, arm m.x.w [] sends⟩ := by
+          simp [pTask, hreg, hrd]
+        obtain ⟨c1, c2, c3, c4⟩ := recvNow_script (arm m.x.w [] sends) m.rsz
+        have hrecOk := hI.recvs
+        have hr0 : (arm m.x.w [] sends).recvs = m.x.w.recvs := rfl
+        have hd0 : (arm m.x.w [] sends).dead = m.x.w.dead := rfl
+        rcases hmr : m.x.w.recvs with _ | ⟨a, rest'⟩
+        · -- nothing pending: only after the kill (K1), end of stream
+          have hk : m.killed.isSome = true := by
+            cases h : m.killed.isSome
+            · simp [h, hrd, hmr] at hcond
+            · rfl
+          have hdd : (arm m.x.w [] sends).dead = true := by rw [hd0, hI.dead]; exact hk
+          have hrn := c1 (hr0.trans hmr) hdd
+          have hval : pTask Script.world m.rsz ⟨m.x.a, arm m.x.w [] sends⟩ rev
+              = (.ok (), pDisconnect ⟨m.x.a, { arm m.x.w [] sends with calls := .recv m.rsz (.data []) :: (arm m.x.w [] sends).calls }⟩) := by
+            rw [hval0]; simp [pReadable, hrn, Exn.isRuntime]
+          have hstep : sysStep m (.step rev sends) =
+              ({ m with x := pDisconnect ⟨m.x.a, { arm m.x.w [] sends with calls := .recv m.rsz (.data []) :: (arm m.x.w [] sends).calls }⟩,
+                        got := m.got ++ [] }, [.disc false]) := by
+            simp only [sysStep, if_neg hc]
+            rw [hval]
+            simp [stepObs, pushed, callsObs, arm, pDisconnect, callObs]
+          rw [hstep]
+          have hF : WFrame m { arm m.x.w [] sends with calls := .recv m.rsz (.data []) :: (arm m.x.w [] sends).calls } :=
+            ⟨hF0.dead, hF0.waits, hF0.sane⟩
+          obtain ⟨h1, h2, h3⟩ := astep_disc_ok ord m sp ep rev sends rest _ hR hI hL ha hep hF (hr0.trans hmr) (by rw [hmr]; rfl) hk hreg
+          refine ⟨{ sp with ep := some { ep with discSeen := ep.discSeen + 1 } }, ?_, h1, h2, h3⟩
+          intro tail
+          have hz : ep.discSeen = 0 := by
+            have h1 := hI.adisc
+            have h2 : m.x.a.disconnects ≠ 1 := fun h => by
+              have := hI.areg.mp h; rw [hreg] at this; cases this
+            rw [hep.2.2.2.2]; omega
+          simp [specRun, specStep, hep.1, hz]
+        · rw [hmr] at hrecOk
+          cases a with
+          | fail e =>
+            have hrest : rest' = [] := hrecOk.2
+            subst hrest
+            have hk : m.killed.isSome = true := by
+              obtain ⟨k, p, hkk, _⟩ := hI.lossyK hrecOk.1
+              rw [hkk]; rfl
+            have hrn := c3 e [] (hr0.trans hmr)
+            have hval : pTask Script.world m.rsz ⟨m.x.a, arm m.x.w [] sends⟩ rev
+                = (.ok (), pDisconnect ⟨m.x.a, { arm m.x.w [] sends with recvs := [], calls := .recv m.rsz (.fail e) :: (arm m.x.w [] sends).calls }⟩) := by
+              rw [hval0]; simp [pReadable, hrn, Exn.isRuntime]
+            have hstep : sysStep m (.step rev sends) =
+                ({ m with x := pDisconnect ⟨m.x.a, { arm m.x.w [] sends with recvs := [], calls := .recv m.rsz (.fail e) :: (arm m.x.w [] sends).calls }⟩,
+                          got := m.got ++ [] }, [.disc false]) := by
+              simp only [sysStep, if_neg hc]
+              rw [hval]
+              simp [stepObs, pushed, callsObs, arm, pDisconnect, callObs]
+            rw [hstep]
+            have hF : WFrame m { arm m.x.w [] sends with recvs := [], calls := .recv m.rsz (.fail e) :: (arm m.x.w [] sends).calls } :=
+              ⟨hF0.dead, hF0.waits, hF0.sane⟩
+            obtain ⟨h1, h2, h3⟩ := astep_disc_ok ord m sp ep rev sends rest _ hR hI hL ha hep hF rfl (by rw [hmr]; rfl) hk hreg
+            refine ⟨{ sp with ep := some { ep with discSeen := ep.discSeen + 1 } }, ?_, h1, h2, h3⟩
+            intro tail
+            have hz : ep.discSeen = 0 := by
+              have h1 := hI.adisc
+              have h2 : m.x.a.disconnects ≠ 1 := fun h => by
+                have := hI.areg.mp h; rw [hreg] at this; cases this
+              rw [hep.2.2.2.2]; omega
+            simp [specRun, specStep, hep.1, hz]
+          | data bs =>
+            have hrn := c4 bs rest' (hr0.trans hmr) hrecOk.1 hrecOk.2.1
+            have hval : pTask Script.world m.rsz ⟨m.x.a, arm m.x.w [] sends⟩ rev
+                = (.ok (), ⟨{ m.x.a with delivered := bs :: m.x.a.delivered },
+                     { arm m.x.w [] sends with recvs := rest', calls := .recv m.rsz (.data bs) :: (arm m.x.w [] sends).calls }⟩) := by
+              rw [hval0]; simp [pReadable, hrn]
+            have hstep : sysStep m (.step rev sends) =
+                ({ m with x := ⟨{ m.x.a with delivered := bs :: m.x.a.delivered },
+                     { arm m.x.w [] sends with recvs := rest', calls := .recv m.rsz (.data bs) :: (arm m.x.w [] sends).calls }⟩,
+                          got := m.got ++ bs }, [.rx bs.length]) := by
+              simp only [sysStep, if_neg hc]
+              rw [hval]
+              simp [stepObs, pushed, callsObs, arm, callObs]
+            rw [hstep]
+            have hF : WFrame m { arm m.x.w [] sends with recvs := rest', calls := .recv m.rsz (.data bs) :: (arm m.x.w [] sends).calls } :=
+              ⟨hF0.dead, hF0.waits, hF0.sane⟩
+            obtain ⟨h1, h2, h3⟩ := astep_got_ok ord m sp rev sends rest _ bs hR hI hL ha hF hmr
+            refine ⟨sp, ?_, h1, h2, h3⟩
+            intro tail
+            have hlen : bs.length ≠ 0 := fun h => hrecOk.1 (List.eq_nil_of_length_eq_zero h)
+            simp [specRun, specStep, hep.1, hlen]
+      · -- no POLLIN: only while the peer is alive (K1: after the kill the socket is readable)
+        have hrd' : rev.rd = false := by cases h : rev.rd <;> simp_all
+        have hk : m.killed = none := by
+          cases h : m.killed with
+          | none => rfl
+          | some kp => simp [h, hrd'] at hcond
+        have hup : rev.hupErr = false := by
+          simp only [hk, Option.isSome_none, Bool.false_eq_true, if_false, Bool.and_eq_true, Bool.not_eq_true'] at hcond
+          exact hcond.1
+        by_cases hwr : rev.wr = true ∧ m.x.a.pollOut = true
+        · -- POLLOUT with a queued buffer: DriverSend
+          rcases hq : m.x.a.sendQ with _ | ⟨buf, rest'⟩
+          · exact absurd hq (hI.pollq hwr.2)
+          have hval0 : pTask Script.world m.rsz ⟨m.x.a, arm m.x.w [] sends⟩ rev
+              = pWritable Script.world ⟨m.x.a, arm m.x.w [] sends⟩ := by
+            simp [pTask, hreg, hrd', hwr.1, hwr.2]
+          obtain ⟨⟨a, hn⟩, hnl, _⟩ := sendNow_run (arm m.x.w [] sends) buf hF0.sane
+          have hF : WFrame m (sendNow Script.world (arm m.x.w [] sends) buf).w :=
+            ⟨hn.dead.trans rfl, fun hk => hn.waits (hF0.waits hk), hn.sane hF0.sane⟩
+          have hr : (sendNow Script.world (arm m.x.w [] sends) buf).w.recvs = m.x.w.recvs := hn.recvs
+          have hcalls : callsObs (sendNow Script.world (arm m.x.w [] sends) buf).w.calls = [.send "x" true] := by
+            rw [callsObs_run hn rfl]; rfl
+          have hnl' : ¬ (rev.wr = true ∧ m.x.a.pollOut = true) → False := fun h => h hwr
+          cases hx : (sendNow Script.world (arm m.x.w [] sends) buf).exn with
+          | none =>
+            by_cases hfull : (sendNow Script.world (arm m.x.w [] sends) buf).sent = buf.length
+            · have hval : pTask Script.world m.rsz ⟨m.x.a, arm m.x.w [] sends⟩ rev
+                  = (.ok (), ⟨{ m.x.a with sendQ := rest', futures := .ok :: m.x.a.futures,
+                                           pollOut := if rest'.isEmpty then false else m.x.a.pollOut },
+                              (sendNow Script.world (arm m.x.w [] sends) buf).w⟩) := by
+                rw [hval0]; simp [pWritable, hq, hx, hfull]
+              have hstep : sysStep m (.step rev sends) =
+                  ({ m with x := ⟨{ m.x.a with sendQ := rest', futures := .ok :: m.x.a.futures,
+                                               pollOut := if rest'.isEmpty then false else m.x.a.pollOut },
+                                  (sendNow Script.world (arm m.x.w [] sends) buf).w⟩, got := m.got ++ [] },
+                   [.send "x" true, .fut m.x.a.futures.length .ok]) := by
+                simp only [sysStep, if_neg hc]
+                rw [hval]
+                simp [stepObs, pushed, hcalls, futOf]
+              rw [hstep]
+              obtain ⟨h1, h2, h3⟩ := astep_sent_ok ord m sp rev sends rest _ buf rest' .ok hR hI hL ha hF hr hq hk hd
+              refine ⟨{ sp with futs := sp.futs + 1 }, ?_, h1, h2, h3⟩
+              intro tail
+              simp [specRun, specStep, futClause, enqs_not_late _ _ (hR.live hreg)]
+            · have hval : pTask Script.world m.rsz ⟨m.x.a, arm m.x.w [] sends⟩ rev
+                  = (.ok (), ⟨{ m.x.a with sendQ := buf.drop (sendNow Script.world (arm m.x.w [] sends) buf).sent :: rest' },
+                              (sendNow Script.world (arm m.x.w [] sends) buf).w⟩) := by
+                rw [hval0]; simp [pWritable, hq, hx, hfull]
+              have hstep : sysStep m (.step rev sends) =
+                  ({ m with x := ⟨{ m.x.a with sendQ := buf.drop (sendNow Script.world (arm m.x.w [] sends) buf).sent :: rest' },
+                                  (sendNow Script.world (arm m.x.w [] sends) buf).w⟩, got := m.got ++ [] },
+                   [.send "x" true]) := by
+                simp only [sysStep, if_neg hc]
+                rw [hval]
+                simp [stepObs, pushed, hcalls]
+              rw [hstep]
+              obtain ⟨h1, h2, h3⟩ := astep_partial_ok ord m sp rev sends rest _ buf rest' _ hR hI hL ha hF hr hq hk
+              refine ⟨sp, ?_, h1, h2, h3⟩
+              intro tail
+              simp [specRun, specStep]
+          | some e =>
+            have hrt : e.isRuntime = true := by
+              have := hnl e hx
+              cases e <;> simp_all [Exn.isLogic, Exn.isRuntime]
+            have hval : pTask Script.world m.rsz ⟨m.x.a, arm m.x.w [] sends⟩ rev
+                = (.ok (), ⟨{ m.x.a with sendQ := rest', futures := .exn :: m.x.a.futures,
+                                         pollOut := if rest'.isEmpty then false else m.x.a.pollOut },
+                            (sendNow Script.world (arm m.x.w [] sends) buf).w⟩) := by
+              rw [hval0]; simp [pWritable, hq, hx, hrt]
+            have hstep : sysStep m (.step rev sends) =
+                ({ m with x := ⟨{ m.x.a with sendQ := rest', futures := .exn :: m.x.a.futures,
+                                             pollOut := if rest'.isEmpty then false else m.x.a.pollOut },
+                                (sendNow Script.world (arm m.x.w [] sends) buf).w⟩, got := m.got ++ [] },
+                 [.send "x" true, .fut m.x.a.futures.length .exn]) := by
+              simp only [sysStep, if_neg hc]
+              rw [hval]
+              simp [stepObs, pushed, hcalls, futOf]
+            rw [hstep]
+            obtain ⟨h1, h2, h3⟩ := astep_sent_ok ord m sp rev sends rest _ buf rest' .exn hR hI hL ha hF hr hq hk hd
+            refine ⟨{ sp with futs := sp.futs + 1 }, ?_, h1, h2, h3⟩
+            intro tail
+            simp [specRun, specStep, futClause, enqs_not_late _ _ (hR.live hreg)]
+        · -- nothing for X in this step
+          have hval : pTask Script.world m.rsz ⟨m.x.a, arm m.x.w [] sends⟩ rev = (.ok (), ⟨m.x.a, arm m.x.w [] sends⟩) := by
+            simp only [pTask, hreg, hrd', hup]
+            simp [hwr]
+          have hstep : sysStep m (.step rev sends) = ({ m with x := { m.x with w := arm m.x.w [] sends }, got := m.got ++ [] }, []) := by
+            simp only [sysStep, if_neg hc]
+            rw [hval]
+            simp [stepObs, pushed, callsObs, arm]
+          rw [hstep]
+          obtain ⟨h1, h2, h3⟩ := astep_idle_ok ord m sp rev sends rest (arm m.x.w [] sends) hR hI hL ha hF0 rfl
+            (fun h => by rw [hk] at h; cases h)
+          exact ⟨sp, fun tail => rfl, h1, h2, h3⟩
 
 end SockModel.PeerFail.Spec
